@@ -53,10 +53,13 @@ MCSeq_single5 == SeqsUpTo(Rows(S3, A5), 1)
 MCSeq_single9 == SeqsUpTo(Rows(S3, A9), 1)
 \* C10/C11: histories over record classes, with and without faults
 QuickFaultRows == {Row3(G1(1), HET, HET), [Row3(HET, HET, HET) EXCEPT !.bad = TRUE], Row3(MISS, HET, G1(1))}
-QuickHistoryRows == {Row3(HET, HOM1, HET), Row3(MISS, HOM1, HET), Row3(HET, HET, MISS), Row3(MULT, HOM0, HOM1)}
+WithPos(row, p) == [gt |-> row.gt, bad |-> row.bad, pos |-> p]
+\* two different records at the SAME position (split multiallelic site / same position on the next contig)
+SamePosRows == {WithPos(Row3(HOM1, HET, HOM0), 7), WithPos(Row3(HOM0, HOM0, HET), 7)}
+QuickHistoryRows == {Row3(HET, HOM1, HET), Row3(MISS, HOM1, HET), Row3(HET, HET, MISS), Row3(MULT, HOM0, HOM1)} \cup SamePosRows
 MCSeq_hist_quick == SeqsUpTo(QuickHistoryRows \cup QuickFaultRows, 3)
 MCSeq_refine == SeqsUpTo(QuickHistoryRows \cup QuickFaultRows, 2)
-MCSeq_hist3 == SeqsUpTo(HistoryRows \cup FaultRows, 3)
+MCSeq_hist3 == SeqsUpTo(HistoryRows \cup FaultRows \cup SamePosRows, 3)
 MCSeq_hist4 == SeqsUpTo(QuickHistoryRows \cup {Row3(G1(1), HET, HET)}, 4)
 MCSeq_nofault3 == SeqsUpTo(HistoryRows, 3)
 MCSeq_nofault2 == SeqsUpTo(HistoryRows, 2)
@@ -81,8 +84,11 @@ ASSUME AB_SumRule \/ ClassifyLaws(AllCalls)
 Lab == {"A", "B", U}
 DistinctSeqs(S, n) == {q \in [1..n -> S] : \A x, y \in 1..n : x # y => q[x] # q[y]}
 ListsOver(S) == UNION {{[k \in 1..n |-> E(q[k], l[k])] : q \in DistinctSeqs(S, n), l \in [1..n -> Lab]} : n \in 1..3}
-MCLists_perm == ListsOver(S3) \cup {AllMarker, <<>>, <<E("a", "A"), E("z", "A")>>, <<E("z", U)>>}
-MCLists_perm_quick == {l \in ListsOver(S3) : Len(l) >= 2 /\ l[1].s # "c"} \cup {AllMarker, <<>>, <<E("a", "A"), E("z", "A")>>}
+\* labels containing blanks, two of them sharing their first word (the two list syntaxes must agree on them)
+SpacedLists == {<<E("a", "East Africa"), E("b", "East Asia"), E("c", "East Africa")>>,
+                <<E("b", "East Asia"), E("a", "East Africa")>>, <<E("a", "x y"), E("c", U), E("b", "x  y")>>}
+MCLists_perm == ListsOver(S3) \cup SpacedLists \cup {AllMarker, <<>>, <<E("a", "A"), E("z", "A")>>, <<E("z", U)>>}
+MCLists_perm_quick == {l \in ListsOver(S3) : Len(l) >= 2 /\ l[1].s # "c"} \cup SpacedLists \cup {AllMarker, <<>>, <<E("a", "A"), E("z", "A")>>}
 \* three asymmetric records so that every permutation is visible in the result
 MCSeq_perm == {<<Row3(HET, HOM0, HOM0), Row3(HOM1, HET, HOM0), Row3(HOM1, HOM1, HET)>>}
 \* C12: four populations (hash-order dependence would show), two column orders, fixed asymmetric records
